@@ -299,7 +299,7 @@ Print Assumptions C12_F42_refuted.
 (* the digest of EVERY octet string is exactly 20 octets, each below 256 *)
 Theorem C12_sha1_digest_shape : forall l,
   length (sha1 l) = 20%nat /\ bytes_ok (sha1 l) = true /\ (forall x, In x (sha1 l) -> x < 256).
-Proof. intros l. split; [apply sha1_length | split; [apply sha1_bytes_ok | apply sha1_octets]]. Qed.
+Proof. exact sha1_digest_shape. Qed.
 Print Assumptions C12_sha1_digest_shape.
 
 (* FIPS 180-4 5.1.1 / 6.1.2: the padded message starts with the message, is a whole number of
@@ -309,9 +309,7 @@ Theorem C12_sha1_padding : forall l,
   take (length l) (sha1_pad l) = l /\ (length (sha1_pad l) mod 64 = 0)%nat /\
   forall extra s, sha1_blocks (S (Nat.div (length (sha1_pad l)) 64) + extra) s (sha1_pad l) =
                   sha1_blocks (S (Nat.div (length (sha1_pad l)) 64)) s (sha1_pad l).
-Proof.
-  intros l. split; [apply sha1_pad_prefix | split; [apply sha1_pad_blocks | intros extra s; apply sha1_fuel_enough]].
-Qed.
+Proof. exact sha1_padding. Qed.
 Print Assumptions C12_sha1_padding.
 
 (* FIPS 180-4 6.1.2 step 1, for EVERY 16-word block: the schedule has 80 words, W_t = M_t for t < 16 and
@@ -329,7 +327,7 @@ Print Assumptions C12_sha1_schedule.
 
 Theorem C12_sha1_words : (forall blk, length blk = 64%nat -> length (words_of blk) = 16%nat) /\
   (forall a b, add32 a b = (a + b) mod 2 ^ 32) /\ (forall n x, rotl32 n x < 2 ^ 32).
-Proof. split; [intros blk L; apply words_of_length; exact L | split; [exact add32_mod | exact rotl32_lt]]. Qed.
+Proof. exact sha1_words. Qed.
 Print Assumptions C12_sha1_words.
 
 (* RFC 4880 12.2 with the model's own SHA-1: for every well-formed v4 public (sub)key packet body the
